@@ -7,7 +7,9 @@
 #ifndef VERIF_VH_FP_H
 #define VERIF_VH_FP_H
 
+#include <cmath>
 #include <cstdio>
+#include <functional>
 #include <limits>
 #include <string>
 
@@ -87,6 +89,74 @@ void cmpSpline(FpAcc &acc, const Spline<F, O> &r, const json &E, const json &S, 
     }
   }
 }
+
+// ---------------------------------------------------------------- perturbed inputs
+// Short dyadic inputs (all TLC's 32-bit integers can express) make most
+// floating-point operations exact, so rounding behaviour would hardly be
+// exercised.  Every case is therefore run a second time with each spline
+// coefficient c replaced by c (1 + u 2^-10), u a pseudo-random 24-bit fraction
+// in [-1, 1): full-mantissa values, still exactly representable in every type.
+// The exact reference for the perturbed input is the same library call made
+// with the exact scalar Rat on the exact values of the perturbed inputs (the
+// exact instantiation is what the exact families validate against the
+// specification); the magnitude is the specification's S for the unperturbed
+// input times 2 (S is a sum of products of absolute values: a relative change
+// of at most 2^-10 per input changes it by far less than a factor 2).
+inline float unitNoise(unsigned long long key) {
+  key ^= key >> 33;
+  key *= 0xff51afd7ed558ccdULL;
+  key ^= key >> 33;
+  key *= 0xc4ceb9fe1a85ec53ULL;
+  key ^= key >> 33;
+  return static_cast<float>(static_cast<long long>(key & 0xffffff) - 0x800000) / 8388608.0f;
+}
+template <typename F>
+F perturbed(F c, unsigned long long key) {
+  const float cf = static_cast<float>(c);  // inputs are short dyadic numbers: exact
+  return static_cast<F>(cf + cf * (unitNoise(key) * 0.0009765625f));
+}
+inline Rat toRat(long double v) {
+  if (v == 0) return Rat::make(0, 1);
+  int e = 0;
+  const long double m = std::frexp(v, &e);            // v = m 2^e, 0.5 <= |m| < 1
+  const long long mant = static_cast<long long>(std::ldexp(m, 40));  // 24-bit inputs: exact
+  const int sh = e - 40;
+  Rat r = Rat::make(mant, 1);
+  const Rat two = Rat::make(2, 1);
+  for (int i = 0; i < (sh < 0 ? -sh : sh); i++) r = sh < 0 ? r / two : r * two;
+  return r;
+}
+inline Q ratToQ(const Rat &r) { return static_cast<Q>(r.num()) / static_cast<Q>(r.den()); }
+
+template <typename F, size_t O>
+Spline<F, O> perturbedSpline(const Spline<F, O> &a, unsigned long long key) {
+  auto c = a.getCoefficients();
+  for (size_t r = 0; r < c.size(); r++)
+    for (size_t k = 0; k <= O; k++) c[r][k] = perturbed(c[r][k], key * 1315423911ULL + r * 131 + k);
+  return Spline<F, O>(a.getSupport(), std::move(c));
+}
+template <typename F, size_t O>
+Spline<Rat, O> exactTwin(const Spline<F, O> &a, const Grid<Rat> &g) {
+  std::vector<std::array<Rat, O + 1>> c(a.getCoefficients().size());
+  for (size_t r = 0; r < c.size(); r++)
+    for (size_t k = 0; k <= O; k++) c[r][k] = toRat(static_cast<long double>(a.getCoefficients()[r][k]));
+  return Spline<Rat, O>(Support<Rat>(g, a.getSupport().getStartIndex(), a.getSupport().getEndIndex()), std::move(c));
+}
+// float result vs exact twin result, magnitude 2 S (S: the spec's magnitude spline for the base input)
+template <typename F, size_t O>
+void cmpSplineTwin(FpAcc &acc, const Spline<F, O> &r, const Spline<Rat, O> &e, const json &S, const std::string &what) {
+  const size_t rs = r.getSupport().getStartIndex(), ss = S.at("s").get<size_t>();
+  const json &sc = S.at("c");
+  for (size_t i = 0; i < r.getCoefficients().size(); i++) {
+    const size_t j = rs + i;
+    const bool inS = j >= ss && (j - ss) < sc.size();
+    for (size_t k = 0; k <= O; k++) {
+      const Q s = (inS && k < sc[j - ss].size()) ? 2 * ratQ(sc[j - ss][k]) : 0;
+      acc.cmp(r.getCoefficients()[i][k], ratToQ(e.getCoefficients().at(i)[k]), s, what + "[" + std::to_string(j) + "][" + std::to_string(k) + "]");
+    }
+  }
+}
+inline unsigned long long caseKey(const json &in) { return std::hash<std::string>{}(in.at("a").dump() + in.value("op", "")); }
 
 // runs body(F{}, acc) for the three built-in types and records the verdicts
 template <typename Body>
